@@ -1,6 +1,6 @@
 package main
 
-// Seed corpus: ~60 small by-construction-valid modules built with wb that together use every
+// Seed corpus: ~80 small by-construction-valid modules built with wb that together use every
 // section kind, every element/data segment encoding and every instruction immediate kind.
 // Each seed states the features it needs; it must be ACCEPTED under every feature set that
 // contains them (validity oracle) and is the base of the structured mutations.
@@ -692,6 +692,33 @@ func buildCorpus() []seed {
 		m.ExportFunc("a", 0)
 		m.ExportFunc("d", f3)
 		add("forward-references", fBR, m)
+	}
+	// segments without the object they could refer to (see segkinds.go for the whole class): a passive element
+	// segment and NO table — instantiation without reference-types indexed the missing table —, and a passive
+	// data segment without memory
+	out = append(out, seed{Name: "elem-passive-no-table", Req: fBR, B: segElemModule(1, 2, fref, 0).B})
+	out = append(out, seed{Name: "data-passive-no-memory", Req: fBR, B: segDataModule(1, 2, 0, true).B})
+	{ // element items written as `global.get g` (imported funcref globals; wazero stores them as g | 1<<30 in
+		// the function-index space) next to every other place that names a function: ref.func and call in
+		// bodies, start, exports, index-form and expression-form items. A function-index field that takes the
+		// value g | 1<<30 must not be mistaken for a function.
+		m := &wb.Module{}
+		m.Imports = append(m.Imports,
+			wb.Import{Module: "env", Name: "g0", Kind: wb.KindGlobal, GlobalType: fref},
+			wb.Import{Module: "env", Name: "g1", Kind: wb.KindGlobal, GlobalType: fref})
+		m.Tables = []wb.Table{{Elem: fref, Lim: wb.Limits{Min: 5}}}
+		f0 := m.AddFunc(nil, nil, nil, nil)
+		m.ExportFunc("rf", m.AddFunc(nil, vt(i32), nil, a().RefFunc(f0).RefIsNull().B))
+		m.ExportFunc("c", m.AddFunc(nil, vt(i32), nil, a().Call(f0).I32Const(3).B))
+		m.ExportFunc("n1", m.AddFunc(nil, vt(i32), nil, a().I32Const(1).TableGet(0).RefIsNull().B))
+		m.ExportFunc("ci", m.AddFunc(nil, nil, nil, a().I32Const(0).CallIndirect(m.Type(nil, nil), 0).B))
+		m.Start = u32p(f0)
+		b := m.Encode()
+		segs := cat([]byte{3},
+			rawElemSeg(4, 0, fref, []elemItem{{'f', f0}, {'g', 0}, {'g', 1}, {'n', 0}}),
+			rawElemSeg(5, 0, fref, []elemItem{{'g', 1}}),
+			rawElemSeg(0, 4, fref, []elemItem{{'f', f0}}))
+		out = append(out, seed{Name: "elem-globalget-items", Req: fBR, B: insertSection(b, 9, segs)})
 	}
 	// ---- one tiny exported function per instruction of a family, so that removing the definition the
 	// family depends on (the memory, a table, the data count ...) confronts EVERY opcode's own existence
